@@ -226,6 +226,62 @@ example :
     l.quiescent ∧ l.copy 1 = some 5 := by
   unfold Link.quiescent; decide
 
+/-! ### what the ordered link is needed for (11.5: the real sender does not wait for the previous batch)
+
+The model delivers batches oldest first.  The two theorems below bound that assumption: two batches may overtake each
+other freely **unless they change a common key** (`batches_commute_of_disjoint`, for all batches and views), and when
+they do share a key an overtaking delivery really leaves the receiver with an instance the owner has removed
+(`overtaking_removal_leaves_a_ghost`, a concrete witness).  So the transport assumption is exactly "batches of one
+sender that touch the same instance arrive in the order they were sent". -/
+
+def disjointKeys (a b : List Change) : Prop := ∀ c ∈ a, ∀ d ∈ b, c.key ≠ d.key
+
+theorem upd_applyAll_comm (v : View) (c : Change) (b : List Change) (h : ∀ d ∈ b, c.key ≠ d.key) :
+    applyAll (upd v c) b = upd (applyAll v b) c := by
+  induction b generalizing v with
+  | nil => rfl
+  | cons d b ih =>
+    have hd : c.key ≠ d.key := h d (by simp)
+    show applyAll (upd (upd v c) d) b = upd (applyAll (upd v d) b) c
+    rw [upd_comm v c d hd]
+    exact ih (upd v d) (fun e he => h e (by simp [he]))
+
+/-- two batches that change no common key can be delivered in either order -/
+theorem batches_commute_of_disjoint (v : View) (a b : List Change) (h : disjointKeys a b) :
+    applyAll (applyAll v a) b = applyAll (applyAll v b) a := by
+  induction a generalizing v with
+  | nil => rfl
+  | cons c a ih =>
+    show applyAll (applyAll (upd v c) a) b = applyAll (upd (applyAll v b) c) a
+    rw [ih (upd v c) (fun x hx y hy => h x (by simp [hx]) y hy),
+      upd_applyAll_comm v c b (fun d hd => h c (by simp) d hd)]
+
+/-- delivery of the *second* batch in flight first (what an unordered transport could do) -/
+def _root_.RNacos.Sync.Link.deliverSecond (l : Link) : Link :=
+  match l.inflight with
+  | a :: b :: rest => { l with inflight := a :: rest, copy := applyAll l.copy b }
+  | _ => l
+
+/-- overtaking is harmless for batches without a common key: the state after both deliveries is the same -/
+theorem overtaking_harmless_of_disjoint (l : Link) (a b : List Change) (rest : List (List Change))
+    (hl : l.inflight = a :: b :: rest) (h : disjointKeys a b) :
+    (l.deliverSecond.step .deliver).copy = ((l.step .deliver).step .deliver).copy
+    ∧ (l.deliverSecond.step .deliver).inflight = ((l.step .deliver).step .deliver).inflight := by
+  simp only [Link.deliverSecond, Link.step, hl]
+  exact ⟨(batches_commute_of_disjoint l.copy a b h).symm, trivial⟩
+
+/-- ... and it is not for batches that share a key: a registration and the removal that follows it, delivered in the
+opposite order, leave the receiver with an instance its owner no longer has, in a quiescent state (nothing will repair
+it at this level; the periodic digests of `Model/Digest` cover gRPC connections only) -/
+theorem overtaking_removal_leaves_a_ghost :
+    let l := ((⟨fun _ => none, [], [], fun _ => none, []⟩ : Link).run
+      [.client ⟨1, some 5⟩, .flush, .client ⟨1, none⟩, .flush]).deliverSecond.step .deliver
+    l.quiescent ∧ l.own 1 = none ∧ l.copy 1 = some 5 := by
+  unfold Link.quiescent; decide
+
+example : disjointKeys [⟨1, some 5⟩, ⟨2, none⟩] [⟨3, some 1⟩] := by
+  intro c hc d hd; simp at hc hd; rcases hc with rfl | rfl <;> subst hd <;> decide
+
 end RNacos.Props.C15
 
 /-! ## the digest of a node's gRPC connections
